@@ -191,7 +191,7 @@ func arpcacheComponent(r *hx.Run) {
 	rng := r.Rng
 	nA, nB := 400, 1200
 	if r.Tier == "thorough" {
-		nA, nB = 6000, 20000
+		nA, nB = 12000, 40000
 	}
 	ipPool := func() net.IP { return net.IPv4(10, byte(rng.Intn(2)), byte(rng.Intn(3)), byte([]int{0, 1, 9, 10, 99, 100, 200, 255}[rng.Intn(8)])) }
 	rndIP := func() net.IP {
